@@ -4,6 +4,7 @@ import Abyss.Props.C12
 #print axioms Abyss.C12_size_classes
 #print axioms Abyss.C12_xorshift
 #print axioms Abyss.C12_record_layout
+#print axioms Abyss.C12_hash_frozen
 #print axioms Abyss.C12_placement
 #print axioms Abyss.C12_placed
 #print axioms Abyss.C12_readable
